@@ -2,7 +2,7 @@
 (used as impl -> spec trace inputs by several checks)."""
 import glob, os
 
-REPO = "/repo"
+REPO = os.environ.get("VERIF_REPO") or os.environ.get("VP_RUN_REPO") or "/repo"
 
 CONFORMING = """\
 .data
